@@ -437,15 +437,30 @@ func BuildFrom(query *Query, tableExpr *sqlparser.TableExpr) error {
 }
 
 func BuildJoin(query *Query, joinExpr *sqlparser.JoinTableExpr) error {
+	// each side is built on a copy of the query. What a derived table defers
+	// there - its post-processors, the asynchronous calls it started - is this
+	// query's to finish
+	own := len(query.postProcessors)
 	left := CopyQuery(query)
 	err := BuildFrom(left, &joinExpr.LeftExpr)
 	if err != nil {
 		return err
 	}
+	deferred := append([]func() error{}, left.postProcessors[own:]...)
 	right := CopyQuery(query)
 	err = BuildFrom(right, &joinExpr.RightExpr)
 	if err != nil {
 		return err
+	}
+	deferred = append(deferred, right.postProcessors[own:]...)
+	query.postProcessors = append(query.postProcessors[:own:own], deferred...)
+	for _, side := range []*Query{left, right} {
+		side := side
+		query.wg.Add(1)
+		go func() {
+			side.wg.Wait()
+			query.wg.Done()
+		}()
 	}
 	if joinExpr.Condition.On == nil {
 		expr := new(sqlparser.AndExpr)
